@@ -277,3 +277,26 @@ func VH_c18_gomap_nan_keys() {
 	ms := map[fk]*int{{math.NaN(), zz.Int("n")}: mkPtrInt("p")}
 	check(clone.GoMap(clone.Given[fk](), clone.Ptr(lz(gi))), ms, "GoMap(Given[struct with a float],Ptr) with a NaN in the key")
 }
+
+// Generic of kind NewType (what gombok derives for `type MySeq []int`): the representation's instance is applied
+type mySeq []int
+
+func VH_c18_generic_newtype() {
+	g := fp.Generic[mySeq, []int]{
+		Type: "c18.mySeq",
+		Kind: fp.GenericKindNewType,
+		To:   func(v mySeq) []int { return []int(v) },
+		From: func(v []int) mySeq { return mySeq(v) },
+	}
+	check(clone.Generic(g, clone.Slice(gi)), mySeq(mkSlice("s")), "Generic(NewType over a slice, Slice)")
+	type box struct{ p *int }
+	gb := fp.Generic[box, *int]{
+		Type: "c18.box",
+		Kind: fp.GenericKindStruct,
+		To:   func(v box) *int { return v.p },
+		From: func(p *int) box { return box{p} },
+	}
+	check(clone.Generic(gb, clone.Ptr(lz(gi))), box{mkPtrInt("p")}, "Generic(Struct, Ptr)")
+	gt := fp.Generic[box, *int]{Type: "c18.box", Kind: fp.GenericKindTuple, To: gb.To, From: gb.From}
+	check(clone.Generic(gt, clone.Ptr(lz(gi))), box{mkPtrInt("q")}, "Generic(Tuple kind, Ptr)")
+}
